@@ -330,6 +330,7 @@ else:
         else:
             mountain = False  # find valley floor
 
+        nxt = cur
         for i in range(i + 1, y.size):
             nxt = y[i]
             if np.abs(nxt - cur) > stol:
